@@ -143,6 +143,10 @@ type Exec struct {
 	ufCalls  map[string][]ufCall // Ackermann-free: we use real UFs; this records calls for replay realisation
 	errCount int
 	uniq     int
+	lastFrame    *Frame
+	lastInstr    ssa.Instruction
+	clock        *Term
+	timers       []timerRec
 	seals        []*sealRec
 	hashFacts    []hashFact
 	hashApps     []hashFact
@@ -164,7 +168,11 @@ type ufCall struct {
 }
 
 func (ex *Exec) unsupported(format string, a ...interface{}) {
-	panic(abortPath{"unsupported", fmt.Sprintf(format, a...)})
+	where := ""
+	if ex.lastFrame != nil && ex.lastInstr != nil {
+		where = fmt.Sprintf(" [in %s at %s]", ex.lastFrame.fn, ex.posOf(ex.lastFrame, ex.lastInstr.Pos()))
+	}
+	panic(abortPath{"unsupported", fmt.Sprintf(format, a...) + where})
 }
 
 // ---- decisions ----
@@ -803,6 +811,7 @@ func (ex *Exec) runFrame(fr *Frame) {
 			if ex.steps > ex.cfg.MaxSteps {
 				panic(abortPath{"budget", fmt.Sprintf("more than %d interpreted instructions on one path", ex.cfg.MaxSteps)})
 			}
+			ex.lastFrame, ex.lastInstr = fr, instr
 			if ex.visitInstr(fr, instr) == kReturn {
 				return
 			}
